@@ -120,7 +120,7 @@ func init() {
 		}
 		// the mutating sub-kinds (set/remove/a.set: the key search of an update is a lookup too) run against
 		// a throw-away storage over the committed ledger; whatever they changed is abandoned, never compared
-		mutating := st.Sub == "set" || st.Sub == "remove" || st.Sub == "a.set"
+		mutating := st.Sub == "set" || st.Sub == "remove" || st.Sub == "a.set" || st.Sub == "a.insert" || st.Sub == "a.remove" || st.Sub == "a.append"
 		if mutating && c.Root().Volatile {
 			return nil
 		}
@@ -133,8 +133,10 @@ func init() {
 			w.Handles = map[int]any{}
 		}
 		evict()
-		if c.Parent != nil {
+		if c.Parent != nil && !mutating {
 			// the faulted call must be the lookup itself, not the re-acquisition of the handle: look up on the root
+			// (an update of a nested container obtains its handle fault-free first: the faults then land in the
+			// update and in the notification of the ancestors)
 			c = c.Root()
 		}
 		h, v := w.handle(c)
@@ -165,13 +167,22 @@ func init() {
 					return nil
 				}
 				return err
-			case !c.IsMap && st.Sub == "a.set":
+			case !c.IsMap && (st.Sub == "a.set" || st.Sub == "a.remove"):
 				n := uint64(len(c.Elems))
 				if n == 0 {
 					return nil
 				}
-				_, err := h.(*atree.Array).Set(st.Pos%n, U64(7))
+				var err error
+				if st.Sub == "a.set" {
+					_, err = h.(*atree.Array).Set(st.Pos%n, U64(7))
+				} else {
+					_, err = h.(*atree.Array).Remove(st.Pos % n)
+				}
 				return err
+			case !c.IsMap && st.Sub == "a.insert":
+				return h.(*atree.Array).Insert(st.Pos%uint64(len(c.Elems)+1), U64(7))
+			case !c.IsMap && st.Sub == "a.append":
+				return h.(*atree.Array).Append(U64(7))
 			case c.IsMap && st.Sub == "has":
 				km, ok := scalarOf(st.K)
 				if !ok {
@@ -273,6 +284,7 @@ func init() {
 		if c == nil {
 			return Step{}, false
 		}
+		nested := c
 		c = c.Root()
 		st := Step{Op: "lookupfault", C: c.CID, Pos: g.genPos(c.Count())}
 		if c.IsMap {
@@ -285,7 +297,24 @@ func init() {
 			}
 			st.K = &k
 		} else {
-			st.Sub = []string{"get", "iter", "get", "a.set"}[g.R.Intn(4)]
+			st.Sub = []string{"get", "iter", "get", "a.set", "a.insert", "a.remove", "a.append"}[g.R.Intn(7)]
+		}
+		if nested != c && g.R.Chance(0.5) {
+			// an update of a nested container (handle obtained fault-free, faults land in the update itself)
+			if nested.IsMap {
+				st.Sub = []string{"set", "remove"}[g.R.Intn(2)]
+				var k VSpec
+				if n := len(nested.Keys); n > 0 && g.R.Chance(0.8) {
+					k = specOfKey(nested.Keys[g.R.Intn(n)])
+				} else {
+					k = g.keys[g.R.Intn(len(g.keys))]
+				}
+				st.K = &k
+			} else {
+				st.Sub = []string{"a.set", "a.insert", "a.remove", "a.append"}[g.R.Intn(4)]
+			}
+			st.C = nested.CID
+			st.Pos = g.genPos(nested.Count())
 		}
 		return st, true
 	}
